@@ -157,7 +157,7 @@ def _shape_of(size):
 # ----------------------------------------------------------------------------------------------
 # F5: numerical kernel failures at the code's own try/except sites
 # ----------------------------------------------------------------------------------------------
-F5_SITES = ("svd", "eigh", "pinv", "qp", "ecos")
+F5_SITES = ("svd", "eigh", "pinv", "qp", "ecos", "clarabel")
 
 
 class KernelFaults:
@@ -215,6 +215,9 @@ class KernelFaults:
             if k.get("solver", None) == cvxpy.ECOS or (a and a[0] == cvxpy.ECOS):
                 if self._should_fail("ecos"):
                     raise cvxpy.error.SolverError("simjd: injected ECOS failure")
+            if k.get("solver", None) == cvxpy.CLARABEL or (a and a[0] == cvxpy.CLARABEL):
+                if self._should_fail("clarabel"):
+                    raise cvxpy.error.SolverError("simjd: injected CLARABEL failure")
             return o_solve(prob, *a, **k)
 
         torch.linalg.svd, torch.linalg.eigh, torch.linalg.pinv = svd, eigh, pinv
